@@ -655,3 +655,202 @@ pub fn nlris(family: Family, size: NlriSize) -> Vec<Nlri> {
         }
     }
 }
+
+/// i-th bulk NLRI of a family; injective in `i` for i < 2^24 - 2^16.
+/// `big` = maximal-size shape (host routes, full descriptors), otherwise the
+/// smallest shape that can still carry 24 bits of `i`.
+pub fn nlri_nth(family: Family, i: u32, big: bool) -> Nlri {
+    let j = i.wrapping_add(0x01_0000) & 0x00ff_ffff; // 24-bit, first octet != 0
+    let net4 = if big {
+        Ipv4Net { addr: Ipv4Addr::from(0x0a00_0000u32.wrapping_add(i & 0x00ff_ffff)), mask: 32 }
+    } else {
+        Ipv4Net { addr: Ipv4Addr::from(j << 8), mask: 24 }
+    };
+    let net6 = if big {
+        let mut o = "2001:db8::".parse::<Ipv6Addr>().unwrap().octets();
+        o[12..16].copy_from_slice(&i.to_be_bytes());
+        Ipv6Net { addr: Ipv6Addr::from(o), mask: 128 }
+    } else {
+        let mut o = [0u8; 16];
+        o[0] = (j >> 16) as u8;
+        o[1] = (j >> 8) as u8;
+        o[2] = j as u8;
+        Ipv6Net { addr: Ipv6Addr::from(o), mask: 24 }
+    };
+    match family {
+        Family::IPV4 | Family::IPV4_MC => Nlri::V4(net4),
+        Family::IPV6 | Family::IPV6_MC => Nlri::V6(net6),
+        Family::IPV4_MPLS => Nlri::LabeledV4(LabeledV4Nlri { labels: stack(&[1000]), prefix: net4 }),
+        Family::IPV6_MPLS => Nlri::LabeledV6(LabeledV6Nlri { labels: stack(&[1000]), prefix: net6 }),
+        Family::IPV4_VPN => Nlri::VpnV4(VpnV4Nlri { labels: stack(&[1000]), rd: rd0(), prefix: net4 }),
+        Family::IPV6_VPN => Nlri::VpnV6(VpnV6Nlri { labels: stack(&[1000]), rd: rd0(), prefix: net6 }),
+        Family::L2VPN_EVPN => {
+            if big {
+                Nlri::Evpn(EvpnNlri::EthernetIpPrefix(EthernetIpPrefixRoute {
+                    rd: rd0(), esi: Esi::ZERO, etag: 0, ip_prefix: IpAddr::V6(net6.addr), prefix_len: 128,
+                    gateway_ip: v6a("::"), label: 5000,
+                }))
+            } else {
+                Nlri::Evpn(EvpnNlri::InclusiveMulticastEthernetTag(InclusiveMulticastEthernetTag {
+                    rd: rd0(), etag: i, originating_router_ip: v4a("192.0.2.1"),
+                }))
+            }
+        }
+        Family::RTC => {
+            if big {
+                Nlri::Rtc(RtcNlri { match_type: MatchType::ExactMatch {
+                    origin_as: i, route_target: [0x00, 0x02, 0xfd, 0xe9, 0, 0, 0, 100] } })
+            } else {
+                Nlri::Rtc(RtcNlri { match_type: MatchType::AsWildcard { origin_as: i } })
+            }
+        }
+        Family::IPV4_FLOWSPEC => Nlri::FlowspecV4(FlowspecV4Nlri {
+            components: if big {
+                fs4_all_components(net4, p4(198, 51, 100, 1, 32), &[80, 8080])
+            } else {
+                vec![F4::DstPrefix(net4)]
+            },
+        }),
+        Family::IPV6_FLOWSPEC => Nlri::FlowspecV6(FlowspecV6Nlri {
+            components: if big {
+                fs6_all_components(net6, p6("2001:db8::2", 128), &[80, 8080])
+            } else {
+                vec![F6::DstPrefix { prefix: net6, offset: 0 }]
+            },
+        }),
+        Family::IPV4_FLOWSPEC_VPN => Nlri::FlowspecVpnV4(FlowspecVpnV4Nlri {
+            rd: rd0(),
+            components: if big {
+                fs4_all_components(net4, p4(198, 51, 100, 1, 32), &[80, 8080])
+            } else {
+                vec![F4::DstPrefix(net4)]
+            },
+        }),
+        Family::IPV6_FLOWSPEC_VPN => Nlri::FlowspecVpnV6(FlowspecVpnV6Nlri {
+            rd: rd0(),
+            components: if big {
+                fs6_all_components(net6, p6("2001:db8::2", 128), &[80, 8080])
+            } else {
+                vec![F6::DstPrefix { prefix: net6, offset: 0 }]
+            },
+        }),
+        Family::LS => {
+            if big {
+                ls_link_big(i as u64)
+            } else {
+                Nlri::Ls(BgpLsNlri::Node(BgpLsNodeNlri {
+                    protocol_id: rustybgp_packet::ls::PROTOCOL_OSPF_V2,
+                    identifier: i as u64,
+                    local_node: NodeDescriptor { igp_router_id: Some(vec![10, 0, 0, 1]), ..Default::default() },
+                }))
+            }
+        }
+        Family::IPV4_MUP | Family::IPV6_MUP => {
+            let v4 = family == Family::IPV4_MUP;
+            if big {
+                Nlri::Mup(MupNlri::Type1SessionTransformed(MupType1SessionTransformedRoute {
+                    rd: rd0(),
+                    prefix_addr: if v4 { IpAddr::V4(net4.addr) } else { IpAddr::V6(net6.addr) },
+                    prefix_len: if v4 { 32 } else { 128 },
+                    teid: i, qfi: 9,
+                    endpoint_address: if v4 { v4a("192.0.2.10") } else { v6a("2001:db8::10") },
+                    source_address: Some(if v4 { v4a("192.0.2.20") } else { v6a("2001:db8::20") }),
+                }))
+            } else {
+                Nlri::Mup(MupNlri::InterworkSegmentDiscovery(MupInterworkSegmentDiscoveryRoute {
+                    rd: rd0(),
+                    prefix_addr: if v4 { IpAddr::V4(net4.addr) } else { IpAddr::V6(net6.addr) },
+                    prefix_len: if v4 { net4.mask } else { net6.mask },
+                }))
+            }
+        }
+        Family::IPV4_SRPOLICY => Nlri::SrPolicy(SrPolicyNlri { distinguisher: i, color: 100, endpoint: v4a("192.0.2.1") }),
+        Family::IPV6_SRPOLICY => Nlri::SrPolicy(SrPolicyNlri { distinguisher: i, color: 100, endpoint: v6a("2001:db8::1") }),
+        _ => Nlri::V4(net4),
+    }
+}
+
+pub fn nlri_bulk(family: Family, n: usize, big: bool) -> Vec<Nlri> {
+    (0..n as u32).map(|i| nlri_nth(family, i, big)).collect()
+}
+
+/// What a receiver must report for `n` when it arrives in MP_UNREACH_NLRI.
+/// RFC 8277 §2.4: the label field of a withdrawn labeled-unicast NLRI is a
+/// 3-byte compatibility field that is ignored; the code reports label 0.
+pub fn unreach_canonical(n: &Nlri) -> Nlri {
+    match n {
+        Nlri::LabeledV4(x) => Nlri::LabeledV4(LabeledV4Nlri { labels: stack(&[0]), prefix: x.prefix }),
+        Nlri::LabeledV6(x) => Nlri::LabeledV6(LabeledV6Nlri { labels: stack(&[0]), prefix: x.prefix }),
+        o => o.clone(),
+    }
+}
+
+/// Entries with path ids i+1 (add-path negotiated) or 0 (not negotiated: the id
+/// is not on the wire and decodes as 0).
+pub fn path_entries(nlris: &[Nlri], addpath: bool) -> Vec<PathNlri> {
+    nlris
+        .iter()
+        .enumerate()
+        .map(|(i, n)| PathNlri { path_id: if addpath { i as u32 + 1 } else { 0 }, nlri: n.clone() })
+        .collect()
+}
+
+// ===========================================================================
+// Next hops
+// ===========================================================================
+
+#[derive(Clone, Debug)]
+pub struct NexthopCase {
+    pub name: &'static str,
+    pub nexthop: Option<Nexthop>,
+    /// only legal when RFC 8950 extended next hop is negotiated (IPv6 next hop
+    /// for an AFI-1 family); for Family::IPV4 the encoder needs the negotiated
+    /// flag to leave the legacy NEXT_HOP encoding.
+    pub needs_ext_nh: bool,
+}
+
+pub fn nh_v4() -> Nexthop {
+    Nexthop::V4(Ipv4Addr::new(192, 0, 2, 1))
+}
+pub fn nh_v6() -> Nexthop {
+    Nexthop::V6("2001:db8::1".parse().unwrap())
+}
+pub fn nh_v6_ll() -> Nexthop {
+    Nexthop::V6LinkLocal("2001:db8::1".parse().unwrap(), "fe80::1".parse().unwrap())
+}
+/// IPv4-mapped IPv6 next hop (RFC 4798 §2, 6PE)
+pub fn nh_v4_mapped() -> Nexthop {
+    Nexthop::V6("::ffff:192.0.2.1".parse().unwrap())
+}
+
+/// RFC-valid next hops of a family (RFC 4271 §5.1.3, RFC 4760 §3, RFC 2545 §3,
+/// RFC 4364 §4.3.2, RFC 4659 §3.2.1, RFC 8950 §3, RFC 7432 §9, RFC 8955 §4).
+pub fn nexthops(family: Family) -> Vec<NexthopCase> {
+    let c = |name, nexthop, needs_ext_nh| NexthopCase { name, nexthop, needs_ext_nh };
+    if is_flowspec(family) {
+        return vec![c("none", None, false)];
+    }
+    match family {
+        // RFC 8950 covers AFI 1 with SAFI 1, 2, 4, 128
+        Family::IPV4 | Family::IPV4_MC | Family::IPV4_MPLS | Family::IPV4_VPN => {
+            let mut v = vec![c("v4", Some(nh_v4()), false), c("v6", Some(nh_v6()), true)];
+            if family != Family::IPV4_VPN {
+                v.push(c("v6+ll", Some(nh_v6_ll()), true));
+            }
+            v
+        }
+        Family::IPV6 | Family::IPV6_MC | Family::IPV6_MPLS => vec![
+            c("v6", Some(nh_v6()), false),
+            c("v6+ll", Some(nh_v6_ll()), false),
+            c("v4-mapped", Some(nh_v4_mapped()), false),
+        ],
+        Family::IPV6_VPN => vec![c("v6", Some(nh_v6()), false), c("v4-mapped", Some(nh_v4_mapped()), false)],
+        Family::IPV6_MUP | Family::IPV6_SRPOLICY => vec![c("v6", Some(nh_v6()), false)],
+        // AFI-independent next hop: 4 or 16 bytes
+        _ => vec![c("v4", Some(nh_v4()), false), c("v6", Some(nh_v6()), false)],
+    }
+}
+
+pub fn default_nexthop(family: Family) -> Option<Nexthop> {
+    nexthops(family)[0].nexthop
+}
